@@ -208,6 +208,12 @@ func staticCases(w *core.Writer, r *core.Rand) {
 		}
 		runSecure(w, fmt.Sprintf("static-emb-%d", i), "secure-static", name, "ptr", x, p.cans, p.secFields)
 	}
+	// ---- types with methods (json.Marshaler by value / pointer receiver, embedded, as fields; TextMarshaler; Stringer; error)
+	for k := 0; k < nMethodPayloads; k++ {
+		p := &planter{}
+		x, name := methodRoot(p, k)
+		runSecure(w, fmt.Sprintf("static-meth-%d", k), "secure-static", name, "ptr", x, p.cans, p.secFields)
+	}
 }
 
 func jsonOf(x any) string {
